@@ -5,6 +5,7 @@ import (
 	"time"
 
 	"github.com/nyaruka/gocommon/dates"
+	"github.com/nyaruka/gocommon/i18n"
 	"github.com/nyaruka/gocommon/jsonx"
 	"github.com/nyaruka/gocommon/urns"
 	"github.com/nyaruka/goflow/flows"
@@ -77,6 +78,11 @@ func (w *DialWait) Begin(run flows.Run, log flows.EventCallback) bool {
 	log(events.NewDialWait(urn, int(w.dialLimit/time.Second), int(w.callLimit/time.Second), &expiresOn))
 
 	return true
+}
+
+// EnumerateTemplates enumerates all expressions on this object
+func (w *DialWait) EnumerateTemplates(localization flows.Localization, include func(i18n.Language, string)) {
+	include(i18n.NilLanguage, w.phone)
 }
 
 // Accept returns whether this wait accepts the given resume
